@@ -96,7 +96,6 @@ _d4 = contract("toasty.toast._div4")
 
 @_d4
 def _(c):
-    c.inline()
     c.setup(div4_setup)
     c.on_path(div4_trace)
 
@@ -158,3 +157,48 @@ def _(c):
     c.cases(*L1_CASES)
     c.setup(point_setup)
     c.on_path(point_trace)
+
+
+# ---- create_single_tile: the descent lands on the requested position ------------------------------------
+
+def _div4_model(interp, env):
+    """call-site behaviour of _div4 = its contract: four children at the child positions (geometry opaque here)"""
+    t = env.lookup("tile")
+    n, x, y = [z3num(v) for v in t.get("pos").vals]
+    kids = []
+    for k in range(4):
+        pos = NTuple("Pos", ("n", "x", "y"), [simp(n + 1), simp(2 * x + (k % 2)), simp(2 * y + (k // 2))])
+        corners = tuple(Opaque("point", fresh_name("child%d.c%d" % (k, j))) for j in range(4))
+        kids.append(NTuple("Tile", ("pos", "corners", "increasing"), [pos, corners, t.get("increasing")]))
+    return PyList(kids)
+
+
+CST_CASES = [{"coordsys": "ASTRONOMICAL"}, {"coordsys": "PLANETARY"}]
+
+
+def cst_setup(interp, path):
+    pos = NTuple("Pos", ("n", "x", "y"), [z3.Int(fresh_name("pos." + f)) for f in "nxy"])
+    return {"pos": pos, "coordsys": _cs(interp._case)}
+
+
+ANC_X = "pos.x >> (pos.n - cur_n)"
+ANC_Y = "pos.y >> (pos.n - cur_n)"
+
+contract("toasty.toast._div4")(lambda c: c.model(_div4_model))
+_cst = contract("toasty.toast.create_single_tile")
+
+
+@_cst
+def _(c):
+    c.cases(*CST_CASES)
+    c.setup(cst_setup)
+    c.requires("pos.n >= 0 and pos.x >= 0 and pos.y >= 0 and pos.x < pow2(pos.n) and pos.y < pow2(pos.n)", name="valid_position")
+    c.raises("ValueError", when="pos.n == 0")
+    # at the loop head: cur_n levels are done and `children` are the four tiles below the ancestor of pos at level cur_n
+    c.loop(0, invariant=[
+        ("levels_done", "0 <= cur_n and cur_n < pos.n"),
+        ("children_are_below_the_ancestor_of_pos", "all_k(0, 4, lambda k: children[k].pos.n == cur_n + 1 "
+         "and children[k].pos.x == 2 * (%s) + k %% 2 and children[k].pos.y == 2 * (%s) + k // 2)" % (ANC_X, ANC_Y)),
+    ], types={"children": "list[TileT;4]", "tile": "TileT", "cur_n": "int", "ix": "int", "iy": "int"},
+        decreases="pos.n - cur_n")
+    c.ensures("result.pos == pos", name="tile_of_the_requested_position")
